@@ -15,9 +15,9 @@ pub struct Multiclass {
     pub parent_list: Vec<MulticlassId>,
     /// what the records defined in the body are called, relative to the name of the defm that
     /// instantiates the multiclass: `def I` -> "I", `def ""` / `def NAME` -> "", `def NAME#"_x"`
-    /// -> "_x", an inner `defm X : M` -> "X" followed by the names of M (computed names are not
-    /// listed)
-    pub record_name_list: Vec<EcoString>,
+    /// -> "_x", an inner `defm X : M` -> "X" followed by the names of M. `false`: only the
+    /// beginning of the name, the rest is computed (`def NAME#"_"#tag` -> ("_", false))
+    pub record_name_list: Vec<(EcoString, bool)>,
 
     pub define_loc: FileRange,
     pub reference_locs: Vec<FileRange>,
@@ -51,7 +51,7 @@ impl Multiclass {
         self.parent_list.push(parent_id);
     }
 
-    pub fn add_record_name(&mut self, name: EcoString) {
-        self.record_name_list.push(name);
+    pub fn add_record_name(&mut self, name: EcoString, is_whole_name: bool) {
+        self.record_name_list.push((name, is_whole_name));
     }
 }
